@@ -15,6 +15,8 @@ CONSTANTS
   Vers = {0, 1}
   FixH4 = TRUE
   SysZeroWrites = FALSE
+  SplitReads = FALSE
+  AtomicLegacyReads = TRUE
   FilterReorgInBatch = TRUE
 INIT RInit
 NEXT RNext
